@@ -1098,7 +1098,42 @@ func buildExtras(c *core.Ctx) {
 				problems = append(problems, "a candidate of protocol "+proto+" gets no codec: every "+proto+" coding is reported unusable")
 			}
 		}
-		c.Decide(len(problems) == 0, "C09-RUN", "encoder.Run#codec-by-protocol", c.Prog.Pos(run.Pos()), "SMPP -> NewSMPPCodec, CMPP -> NewCMPPCodec, the result is the codec used", strings.Join(dedup(problems), "; "))
+		// the constructors answer nil for a coding they do not know: every call on the codec is made where it was found
+		// non-nil (an unknown candidate is marked unusable, not dereferenced)
+		for _, b := range run.Blocks {
+			for _, ins := range b.Instrs {
+				call, ok := ins.(*ssa.Call)
+				if !ok || !call.Call.IsInvoke() || !isCodecValue(call.Call.Value) {
+					continue
+				}
+				if _, isPhi := call.Call.Value.(*ssa.Phi); !isPhi {
+					continue
+				}
+				guarded := false
+				for x := b; x != nil && x.Idom() != nil; x = x.Idom() {
+					d := x.Idom()
+					ifi, isIf := d.Instrs[len(d.Instrs)-1].(*ssa.If)
+					if !isIf || d.Succs[0] == d.Succs[1] {
+						continue
+					}
+					subj, neq, isNil := nilTest(ifi.Cond)
+					if !isNil || subj != call.Call.Value {
+						continue
+					}
+					nonNilSucc := d.Succs[1]
+					if neq {
+						nonNilSucc = d.Succs[0]
+					}
+					if len(nonNilSucc.Preds) == 1 && (nonNilSucc == x || nonNilSucc.Dominates(x)) {
+						guarded = true
+					}
+				}
+				if !guarded {
+					problems = append(problems, "the codec is used at "+c.Prog.Pos(call.Pos())+" without having been found non-nil: a candidate of an unknown coding makes Run panic (in its goroutine)")
+				}
+			}
+		}
+		c.Decide(len(problems) == 0, "C09-RUN", "encoder.Run#codec-by-protocol", c.Prog.Pos(run.Pos()), "SMPP -> NewSMPPCodec, CMPP -> NewCMPPCodec, the result is the codec used, and used only where found non-nil", strings.Join(dedup(problems), "; "))
 	}
 	// Less walks the comparators 0 .. n-2 and answers with comparator n-1
 	if less := c.Prog.SSAFunc(c.Prog.LookupMethod("", "batchEncoderSorter", "Less")); less != nil {
